@@ -71,6 +71,12 @@ def stepLine (s : St) (line : String) : St × String :=
       let r := Remote.new? c
       ({ s with server := f, remote := r }, if r.isSome then "some" else "none")
     | _, _ => (s, "bad-op")
+  | "server" :: _ =>
+    -- the server's filter changes, only between complete rounds (else skipped on both sides)
+    match kvBytes? ws "filter" with
+    | some f =>
+      if (s.remote.map fun r => r.next == 0).getD true then ({ s with server := f }, "ok") else (s, "skip")
+    | none => (s, "bad-op")
   | "newchunk" :: _ =>
     match kvNat? ws "c" with
     | some c => (s, if (Remote.new? c).isSome then "some" else "none")
